@@ -153,7 +153,7 @@ Lemma dur_facts d : dur_any d = true ->
              /\ fmt_dur orc d' = fmt_dur orc d /\ (6000 < Z.abs d -> (d' =? 0) = false)
              /\ num_chars (fmt_dur orc d) = true.
 Proof.
-  intros H. destruct (ok_dur orc OK d H) as (d' & Hp & Hc & _ & Hf & Hnz).
+  intros H. destruct (ok_dur orc OK d H) as (d' & Hp & Hc & Hf & Hnz).
   destruct (ok_dur_chars orc OK d) as [Hch _].
   exists d'. repeat split; auto. intros Hd. apply Z.eqb_neq. auto.
 Qed.
